@@ -49,7 +49,13 @@ func lzClass(v *big.Int, size int) int {
 
 func c14classOf(k *ecdsa.PublicKey, d *big.Int) string {
 	size := (k.Curve.Params().BitSize + 7) / 8
-	s := fmt.Sprintf("x%d/y%d", lzClass(k.X, size), lzClass(k.Y, size))
+	tz := func(v *big.Int) string {
+		if v.FillBytes(make([]byte, size))[size-1] == 0 {
+			return "t"
+		}
+		return ""
+	}
+	s := fmt.Sprintf("x%d%s/y%d%s", lzClass(k.X, size), tz(k.X), lzClass(k.Y, size), tz(k.Y))
 	if d != nil {
 		s += fmt.Sprintf("/d%d", lzClass(d, size))
 	}
@@ -59,6 +65,13 @@ func c14classOf(k *ecdsa.PublicKey, d *big.Int) string {
 // c14search finds private scalars whose public point has the wanted number of
 // leading zero bytes in x (coord 0) or y (coord 1).
 func c14search(c elliptic.Curve, r *mon.Rand, coord, zeros, maxTries, workers int) *ecdsa.PrivateKey {
+	return c14searchPred(c, r, coord, maxTries, workers, func(v *big.Int, size int) bool {
+		return refcrypto.LeadingZeroBytes(v, size) >= zeros
+	})
+}
+
+// c14searchPred finds a private scalar whose public coordinate satisfies pred.
+func c14searchPred(c elliptic.Curve, r *mon.Rand, coord, maxTries, workers int, pred func(v *big.Int, size int) bool) *ecdsa.PrivateKey {
 	size := (c.Params().BitSize + 7) / 8
 	var found *ecdsa.PrivateKey
 	var mu sync.Mutex
@@ -91,7 +104,7 @@ func c14search(c elliptic.Curve, r *mon.Rand, coord, zeros, maxTries, workers in
 				if coord == 1 {
 					v = y
 				}
-				if refcrypto.LeadingZeroBytes(v, size) >= zeros {
+				if pred(v, size) {
 					mu.Lock()
 					if found == nil {
 						found = &ecdsa.PrivateKey{PublicKey: ecdsa.PublicKey{Curve: c, X: x, Y: y}, D: new(big.Int).Set(d)}
@@ -159,6 +172,16 @@ func runC14(c *Ctx) {
 			}
 			for i := 0; i < c.N(1, 6); i++ {
 				add(c14search(cv, r, coord, 2, 1500000, c.Workers), fmt.Sprintf("%s/%s-zeros-2", name, cn))
+			}
+			// trailing zero octet, and leading + trailing zero octets at once
+			trailing := func(v *big.Int, size int) bool { return v.FillBytes(make([]byte, size))[size-1] == 0 }
+			for i := 0; i < c.N(3, 30); i++ {
+				add(c14searchPred(cv, r, coord, 40000, c.Workers, trailing), fmt.Sprintf("%s/%s-trailing-zero", name, cn))
+			}
+			for i := 0; i < c.N(1, 6); i++ {
+				add(c14searchPred(cv, r, coord, 1500000, c.Workers, func(v *big.Int, size int) bool {
+					return refcrypto.LeadingZeroBytes(v, size) >= 1 && trailing(v, size)
+				}), fmt.Sprintf("%s/%s-leading+trailing-zero", name, cn))
 			}
 			if c.Thorough && name != "P-521" {
 				add(c14search(cv, r, coord, 3, 80000000, c.Workers), fmt.Sprintf("%s/%s-zeros-3", name, cn))
